@@ -386,7 +386,8 @@ def gen_specs(rng: random.Random, tier: str, n: int) -> list[dict]:
                 early = rng.random() < 0.5
                 if early:
                     ops.append(["construct_T"])
-                for _ in range(rng.randint(1, 8)):
+                long_history = rng.random() < 0.04  # state that accumulates a little with every call needs many calls to show
+                for _ in range(rng.randint(40, 70) if long_history else rng.randint(1, 8)):
                     ops.append(rand_noise(rng, T))
                 if not early and rng.random() < 0.5:
                     ops.append(["construct_T"])
